@@ -3,7 +3,8 @@
     computation) and the parse succeeds with the expected occurrence groups. *)
 From ClapModel Require Import Base.Bytes Base.Machine Base.Utf8 Lex.OsStrExtModel.
 From ClapModel Require Import Parse.Cmd Parse.Build Parse.Valid Parse.Matcher Parse.Errors Parse.Validator Parse.Parser.
-From ClapModel Require Import ParseProofs.Actions ParseProofs.Unparse ParseProofs.UnparseProofs ParseProofs.UnparseTop.
+From ClapModel Require Import ParseProofs.Actions ParseProofs.Unparse ParseProofs.UnparseProofs ParseProofs.UnparseTop
+                              ParseProofs.UnparseSub ParseProofs.UnparseTree.
 From Coq Require Import ZArith List Bool.
 From RecordUpdate Require Import RecordSet.
 Import RecordSetNotations.
@@ -82,4 +83,28 @@ Module UnparseEx.
                           /\ items_pst c PSValuesDone 1 [ItPos [[70]]; ItPos [[82]]] = PSPos [114]
                           /\ items_pos c 1 its = 2.
   Proof. split; [vm_compute; reflexivity|]. split; [eexists; vm_compute; reflexivity|]. split; vm_compute; reflexivity. Qed.
+
+  (** a tree: prog -v -q/--qu -o/--opt <v>;  subcommand run (alias go): -x (SetTrue), --name <v> (Set), <file>
+      line: prog --qu -voA go -x --name=V F *)
+  Definition x : arg := (arg_new [120]) <| a_short := Some 120 |> <| a_action := Some ASetTrue |>.
+  Definition nm : arg := (arg_new [110]) <| a_long := Some [110; 97; 109; 101] |> <| a_action := Some ASet |>.
+  Definition run : cmd := (cmd_new [114; 117; 110]) <| c_aliases := [([103; 111], true)] |> <| c_args := [x; nm; f] |>.
+  Definition t0 : cmd := (cmd_new [112]) <| c_args := [v; q; o] |> <| c_subs := [run] |>.
+  Definition tinv : inv :=
+    ISub [ItLong [113; 117]; ItCluster [118] (TAtt 111 [65])] [103; 111]
+         (ILeaf [ItCluster [120] TNone; ItLongEq [110; 97; 109; 101] [86]; ItPos [[70]]]).
+  Definition tbin : bytes := [112].
+  Example ex_tree_valid : valid (with_bin t0 tbin) = true. Proof. vm_compute. reflexivity. Qed.
+  Example ex_tree_nobin : is_set s_no_binary_name t0 = false. Proof. reflexivity. Qed.
+  Example ex_tree_wf : wf_inv (build_self (with_bin t0 tbin)) tinv = true. Proof. vm_compute. reflexivity. Qed.
+  Example ex_tree_render : render_inv tinv =
+    [[45; 45; 113; 117]; [45; 118; 111; 65]; [103; 111]; [45; 120]; [45; 45; 110; 97; 109; 101; 61; 86]; [70]].
+  Proof. vm_compute. reflexivity. Qed.
+  Definition raw_of (i : id) (m : matches) : option groups := opt_map m_raw (fm_get i (ms_args m)).
+  Example ex_tree_parse : exists m sm,
+    parse_top t0 (tbin :: render_inv tinv) = OOk m /\ ms_sub m = Some ([114; 117; 110], sm) /\
+    raw_of [111] m = Some [[[65]]] /\ raw_of [118] m = Some [[[49]]] /\
+    raw_of [120] sm = Some [[s_true]] /\ raw_of [110] sm = Some [[[86]]] /\ raw_of [102] sm = Some [[[70]]].
+  Proof. eexists. eexists. split; [vm_compute; reflexivity|]. repeat split. Qed.
 End UnparseEx.
+
